@@ -12,6 +12,7 @@ mod c19;
 mod c05;
 mod c06;
 mod c08;
+mod c09;
 mod c10;
 mod c12;
 mod c11;
@@ -144,6 +145,7 @@ fn main() {
     "C16" => (c16::generate, c16::exec),
     "C06" => (c06::generate, c06::exec),
     "C08" => (c08::generate, c08::exec),
+    "C09" => (c09::generate, c09::exec),
     "C10" => (c10::generate, c10::exec),
     "C17" => (c17::generate, c17::exec),
     "C18" => (c18::generate, c18::exec),
